@@ -19,7 +19,8 @@ open ScalarFns
 
 /-! ## the dataset -/
 
-/-- what a cell of the ID column may hold: an integer, a float with an integer value
+/-- what a cell of the ID column, a cell of the observable column, or a value of the user's name maps
+    may hold before it is turned into a string: an integer, a float with an integer value
     (`2.0`, pandas prints it `'2.0'`), or a string -/
 inductive RawId where
   | int (n : Int)
@@ -37,7 +38,7 @@ def RawId.key : RawId → String
 structure RawRow (α : Type) where
   id : RawId
   time : Option α
-  obs : Option String
+  obs : Option RawId
   value : Option α
   dose : Option α
   duration : Option α
@@ -54,10 +55,10 @@ structure Row (α : Type) where
 
 variable {α : Type}
 
-/-- `data[keys]` + `_clean_data`: foreign columns are dropped, IDs become strings; without a dose /
+/-- `data[keys]` + `_clean_data`: foreign columns are dropped, IDs and observable names become strings; without a dose /
     duration key the column is not kept -/
 def clean (hasDose hasDur : Bool) (r : RawRow α) : Row α :=
-  { id := r.id.key, time := r.time, obs := r.obs, value := r.value,
+  { id := r.id.key, time := r.time, obs := r.obs.map RawId.key, value := r.value,
     dose := if hasDose then r.dose else none,
     duration := if hasDose && hasDur then r.duration else none }
 
@@ -233,11 +234,12 @@ def Mat.toLists (M : Mat α) (n c : Nat) : List (List (Option α)) :=
 structure Config where
   /-- `mechanistic_model.outputs()` -/
   outputs : List String
-  /-- `output_observable_dict` (`none` = not given) -/
-  obsMap : Option (List (String × String))
+  /-- `output_observable_dict` (`none` = not given): entries in the order the user wrote them, possibly
+      with keys that are no outputs; values as the user wrote them (9784f5e: stringified by `set_data`) -/
+  obsMap : Option (List (String × RawId))
   /-- `population_model.get_covariate_names()` (`[]` without population model) -/
   covNames : List String
-  covMap : Option (List (String × String))
+  covMap : Option (List (String × RawId))
   /-- a dose key is used (given and the model supports dosing) -/
   hasDose : Bool
   hasDur : Bool
@@ -288,12 +290,20 @@ def checkCovMap (covNames obsv : List String) (m : Option (List (String × Strin
   else if mapValid covNames obsv (resolveCovMap covNames m) then .ok (resolveCovMap covNames m)
   else .error .valueError
 
+/-- `{k: str(v) for k, v in dict(name_map).items()}` -/
+def strMap (m : Option (List (String × RawId))) : Option (List (String × String)) :=
+  m.map (fun l => l.map (fun p => (p.1, p.2.key)))
+
+/-- `data[obs_key].dropna().astype(str).unique()` -/
+def rawObservables (raw : List (RawRow α)) : List String :=
+  unique (raw.filterMap (fun r => r.obs.map RawId.key))
+
 def setData [Div α] [ScalarFns α] (cfg : Config) (raw : List (RawRow α)) : Except Err (Problem α) :=
-  let obsv := unique (raw.filterMap (·.obs))
-  match checkObsMap cfg.outputs obsv cfg.obsMap with
+  let obsv := rawObservables raw
+  match checkObsMap cfg.outputs obsv (strMap cfg.obsMap) with
   | .error x => .error x
   | .ok om =>
-  match checkCovMap cfg.covNames obsv cfg.covMap with
+  match checkCovMap cfg.covNames obsv (strMap cfg.covMap) with
   | .error x => .error x
   | .ok cm =>
   let d := cleanData cfg.hasDose cfg.hasDur raw
